@@ -10,6 +10,39 @@ from . import common
 FACTORY = 'yabgp/core/factory.py'
 
 
+def stale_lost_rule(tab, rep, rule):
+    """connectionLost of an earlier, already replaced connection does not touch the tracked one."""
+    seen = {}
+    for state in ORDER:
+        for r in tab.get('TCP_CLOSED_OLD', state):
+            if r.kind == 'raise':
+                continue
+            name = 'TCP_CLOSED_OLD@%s' % state
+            tracked = r.field('fsm', 'protocol')
+            estab = r.field('peering', 'estab_protocol')
+            probs = []
+            if not (isinstance(tracked, Obj) and tracked.oid == r.poid):
+                probs.append('fsm.protocol becomes %s' % cval(tracked))
+            if not (isinstance(estab, Obj) and estab.oid == r.poid):
+                probs.append('estab_protocol becomes %s' % cval(estab))
+            if r.final != state:
+                probs.append('state %s -> %s' % (state, r.final))
+            if r.closes() or r.sends():
+                probs.append('closes / sends on the current connection')
+            if probs:
+                if seen.get(name) != 'bad':
+                    seen[name] = 'bad'
+                    rep.bad(rule, name, file=common.row_file(r) or FACTORY, line=common.row_line(r),
+                            func='BGPPeering.connection_closed', found='; '.join(probs) +
+                            ': the live connection is then open but no longer tracked (nothing can close it)',
+                            expected='no effect on the tracked connection', key=name, path=r.describe())
+            elif name not in seen:
+                seen[name] = 'ok'
+                rep.ok(rule, name, file=FACTORY, line=common.row_line(r))
+    if not seen:
+        rep.undecided(rule, 'TCP_CLOSED_OLD', found='no rows')
+
+
 def check(prog, rep, tier):
     rep.rule('R12.a', 'handle retention: the connector returned by reactor.connectTCP is stored in an attribute '
                       'of the peering (otherwise a pending attempt can never be aborted)')
@@ -124,35 +157,7 @@ def check(prog, rep, tier):
         rep.undecided('R12.c', 'TCP_UP2', found='no second-connection rows')
 
     # ---------------------------------------------------------------- R12.e
-    seen = {}
-    for state in ORDER:
-        for r in tab.get('TCP_CLOSED_OLD', state):
-            if r.kind == 'raise':
-                continue
-            name = 'TCP_CLOSED_OLD@%s' % state
-            tracked = r.field('fsm', 'protocol')
-            estab = r.field('peering', 'estab_protocol')
-            probs = []
-            if not (isinstance(tracked, Obj) and tracked.oid == r.poid):
-                probs.append('fsm.protocol becomes %s' % cval(tracked))
-            if not (isinstance(estab, Obj) and estab.oid == r.poid):
-                probs.append('estab_protocol becomes %s' % cval(estab))
-            if r.final != state:
-                probs.append('state %s -> %s' % (state, r.final))
-            if r.closes() or r.sends():
-                probs.append('closes / sends on the current connection')
-            if probs:
-                if seen.get(name) != 'bad':
-                    seen[name] = 'bad'
-                    rep.bad('R12.e', name, file=common.row_file(r) or FACTORY, line=common.row_line(r),
-                            func='BGPPeering.connection_closed', found='; '.join(probs) +
-                            ': the live connection is then open but no longer tracked (nothing can close it)',
-                            expected='no effect on the tracked connection', key=name, path=r.describe())
-            elif name not in seen:
-                seen[name] = 'ok'
-                rep.ok('R12.e', name, file=FACTORY, line=common.row_line(r))
-    if not seen:
-        rep.undecided('R12.e', 'TCP_CLOSED_OLD', found='no rows')
+    stale_lost_rule(tab, rep, 'R12.e')
     # ---------------------------------------------------------------- R12.f
     seen = {}
     for (ev, state), rows in sorted(tab.rows.items()):
